@@ -265,7 +265,8 @@ def gen_query(rnd, i, cur, env: dict, pool, all_names=()) -> dict:
     bound = rnd.random() < 0.3          # a statement with pyformat-bound parameters
     params, wires = [], []
     recipe = []                         # how to recompute the expectation for another connection's variables (mirror ops)
-    for _ in range(rnd.randint(1, 3)):
+    # mostly 1-3 select items; one statement in ten has 9-14 of them (a statement may reference variables any number of times)
+    for _ in range(rnd.randint(9, 14) if rnd.random() < 0.1 else rnd.randint(1, 3)):
         k = rnd.random()
         if bound and k < 0.45:
             # a bound value: data, whatever `$name` it contains (defined here, defined elsewhere, undefined)
@@ -306,9 +307,16 @@ def gen_query(rnd, i, cur, env: dict, pool, all_names=()) -> dict:
                 err, undef_item = n.upper(), items[-1]
         elif k < 0.7:
             n = rnd.choice(pool)
-            items.append(f"$${n}$$")          # a `$$` string, not a reference
-            expect.append(("str", n))
-            recipe.append(("const", ("str", n)))
+            if rnd.random() < 0.5:
+                items.append(f"$${n}$$")          # a `$$` string, not a reference
+                body = n
+            else:
+                # `$$$name …$$`: every `$` of `$$$` is preceded or followed by `$` — still no reference
+                body = "$" + n + rnd.choice([" per unit", "", "$"])
+                items.append(f"$${body}$$" if not body.endswith("$") else f"$${body} $$")
+                body = body if not body.endswith("$") else body + " "
+            expect.append(("str", body))
+            recipe.append(("const", ("str", body)))
         elif k < 0.8:
             s = rnd.choice(["a$", "$ b", "$$", "$", "a$ $", "$-1", "x$$"] + ([] if bound else ["100%"]))
             items.append(f"'{s}'")
@@ -643,7 +651,7 @@ def gen_ties(chk):
     from sqlglot import exp
     from sqlglot.dialects.snowflake import Snowflake
     rnd = random.Random(chk.seed + 7)
-    strs = list(ATOMS) + [gen_str(rnd, nul=(i % 50 == 0)) for i in range(800 if chk.tier == "quick" else 20000)]
+    strs = list(ATOMS) + [gen_str(rnd, nul=(i % 50 == 0)) for i in range(400 if chk.tier == "quick" else 20000)]
     reps = common.batch(["vars\tsflit\t" + enc_str(s) for s in strs])
     for s, r in zip(strs, reps):
         real = exp.Literal.string(s).sql(dialect="snowflake")
